@@ -191,8 +191,10 @@ CHECKS = {
              'callee evaluation) or by one of a closed list of named structural rules (piece lists, lockstep counters, '
              'list windows, bitbase index, e.p. geometry) under named chess assumptions; plus search-stack depth, PV '
              'length, move-list rows, pin list, list capacity at every generate_moves call, depth-indexed array (via '
-             'C09), and definite assignment of uninitialised scalar locals. An unclassifiable site is a violation. '
-             'Heap containers and object lifetime at quit are not decided.',
+             'C09), definite assignment of uninitialised scalar locals, and scalar members of engine classes initialised by '
+             'every constructor that engine code invokes (B12); std::vector subscripts and the history window are '
+             'decided by the HEAP rules, the search thread\'s lifetime by C06.R6. An unclassifiable site in reference '
+             'code is a violation, in code the reference tree did not have it is analysis-broken (exit 2).',
         design_ref='DESIGN.md §3 C10',
         note=TB + 'assumptions named in evidence: A-PC/A-LIST, A-218, A-SM, A-EP, A-PAWN, A-WF, A-MAT, A-ENUM(decoders).',
         technique='static: interprocedural interval abstract interpretation + named structural bound rules'),
